@@ -5,6 +5,7 @@ From Coq Require Import List NArith ZArith Bool String.
 Import ListNotations.
 From JR Require Import Json Handle Handle_Proofs.
 From JRGen Require Extracted.
+From JR Require Skeletons.
 
 (* reflect's Call has exactly one call site, inside doCall, whose first statement is a deferred recover();
    doCall is called from handle only *)
@@ -32,6 +33,14 @@ Theorem c13_confined_in_batch : forall c (l1 l2 : list request) x,
   map (handle_element c) (l1 ++ x :: l2) = map (handle_element c) l1 ++ handle_element c x :: map (handle_element c) l2.
 Proof. exact batch_elements_independent. Qed.
 
+(* the functions this property's model is an abstraction of still have the control / locking / shared-state skeleton the
+   model was written against (Skeletons.v, by hand; Extracted.v, regenerated from /repo) *)
+Theorem c13_code_skeletons :
+  JRGen.Extracted.effects_doCall = JR.Skeletons.doCall /\
+  JRGen.Extracted.effects_handleCall = JR.Skeletons.handleCall.
+Proof. repeat split; reflexivity. Qed.
+
+Print Assumptions c13_code_skeletons.
 Print Assumptions c13_source_recover.
 Print Assumptions c13_reply_mentions_panic.
 Print Assumptions c13_confined_in_batch.
